@@ -727,12 +727,71 @@ func propC06Latest(c *Ctx, lt *ssa.Function, fStart *types.Var) {
 			}
 		}
 		isNil, _ := nilTestEdges(scanErr)
+		// the query's error handed on by the helper that runs it (`num, hash, err := t.recorded(pg)`): a nil
+		// result there means the query's error was nil; a sentinel it returns only under ErrNoRows means "no rows"
+		if h := scanErr.Parent(); h != lt {
+			if cs, ok := lreg.site[h].(*ssa.Call); ok {
+				if alias, has := errResult(cs); has && alias != nil {
+					passNil, sentinels := true, map[*ssa.Global]bool{}
+					var pf *pathFacts
+					for _, r := range returnsOf(h) {
+						vals := returnValues(r)
+						ev := vals[len(vals)-1]
+						switch {
+						case ev == ssa.Value(scanErr):
+						case isNilConst(ev):
+							if !guardedByEdges(h, r, isNil) {
+								passNil = false
+							}
+						default:
+							if u, ok := ev.(*ssa.UnOp); ok && u.Op == token.MUL {
+								if g, ok := u.X.(*ssa.Global); ok {
+									if len(noRows) > 0 && guardedByEdges(h, r, noRows) {
+										sentinels[g] = true
+									} else {
+										sentinels[g] = false
+									}
+									continue
+								}
+							}
+							if pf == nil {
+								pf = newPathFacts(h)
+							}
+							if st := pf.At(r); !(definitelyNonNilError(ev, nil) || st == nil || st.knownNonNil(ev)) {
+								passNil = false
+							}
+						}
+					}
+					if passNil {
+						n2, _ := nilTestEdges(alias)
+						isNil = append(isNil, n2...)
+					}
+					for _, ref := range *alias.Referrers() {
+						if call, ok := ref.(*ssa.Call); ok && calleeName(call) == "errors.Is" && call.Call.Args[0] == alias {
+							if u, ok := call.Call.Args[1].(*ssa.UnOp); ok {
+								if g, ok := u.X.(*ssa.Global); ok && sentinels[g] {
+									t, _ := boolEdges(call)
+									noRows = append(noRows, t...)
+								}
+							}
+						}
+					}
+				}
+			}
+		}
 		reachable := func(at *ssa.Return, cuts *Cuts) bool {
 			return at != nil && lreg.ReachFromEntry(at, cuts)
 		}
 		// the query did not succeed: the scanned row must not be returned
 		c1 := liftBoolHelpers(lreg, newCuts().addEdges(isNil), nil)
 		for _, at := range rowAts {
+			// a return of a helper that hands the query's error on as it is is not yet a success
+			if at != nil && at.Parent() != lt {
+				vals := returnValues(at)
+				if !isNilConst(vals[len(vals)-1]) {
+					continue
+				}
+			}
 			if len(isNil) == 0 || reachable(at, c1) {
 				okGuard = false
 				if os.Getenv("SHOVELCHECK_DEBUG") != "" {
